@@ -918,6 +918,13 @@ def systematic_programs(max_level=2):
             return [('if', [(T, [P(tag + "a")]), (T, [P(tag + "b")] + body)], [P(tag + "c")])]
         if kind == 'else':
             return [('if', [(T, [P(tag + "t")])], [P(tag + "e")] + body)]
+        # conditions the compiler can decide: a literal, a comparison of literals, a negated literal
+        if kind == 'iftrue':
+            return [('if', [(('bool', True), [P(tag + "t")] + body)], None)]
+        if kind == 'ifcmp':
+            return [('if', [(('bin', '<', ('int', 1), ('int', 2)), [P(tag + "t")] + body)], [P(tag + "e")])]
+        if kind == 'elsefalse':
+            return [('if', [(('not', ('bool', True)), [P(tag + "t")])], [P(tag + "e")] + body)]
         if kind == 'while':
             return [('while', T, [P(tag + "w")] + body + [P(tag + "x")])]
         if kind == 'wcount':
@@ -937,7 +944,8 @@ def systematic_programs(max_level=2):
                     ('print', ('var', c))]
         raise ValueError(kind)
 
-    KINDS = ['if', 'ifelse', 'elseif', 'else', 'while', 'wcount', 'from', 'fromnamed', 'fromcollide']
+    KINDS = ['if', 'ifelse', 'elseif', 'else', 'while', 'wcount', 'from', 'fromnamed', 'fromcollide',
+             'iftrue', 'ifcmp', 'elsefalse']
     LOOPS = ('while', 'wcount', 'from', 'fromnamed', 'fromcollide')
     out = []
 
